@@ -143,7 +143,7 @@ PROPS.update({
                 harnesses=["H2", "H8"]),
     "C15": dict(h2prop(["TurnModel.Props.C15", "TurnModel.Props.C15Attach"], ["*"], ["ev", "net", "dclosed", "cclosed"],
                   ["allocation-count-mismatch", "sockets-left-after-close", "server-close-leaves-control-connections", "even-port-probe-left-open", "bind-response-lost-leaks-peer-connection",
-                   "connection-attached-to-dead-allocation", "state-attached-to-dead-allocation", "bind-refused-but-connection-kept", "h12-setup"],
+                   "connection-attached-to-dead-allocation", "state-attached-to-dead-allocation", "bind-refused-but-connection-kept", "success-for-ended-allocation", "h12-setup"],
                   ["PARTIAL: goroutines and timers are ghost state in the model (one timer per entity, one reader goroutine per allocation); "
                    "their real existence is observed only through the simnet open/close log and the synctest bubble draining at the end of every history"]),
                 harnesses=["H2", "H12"]),
